@@ -557,8 +557,11 @@ func runC01Trial(run *ev.Run, sp *c01Spec, seed int64) {
 			allRight = false
 		}
 	}
-	if !allWrong && !allRight {
-		// extend once
+	if !allRight {
+		// Not equal to the oracle at some look. Rounds are counted where updates are sent; on a starved machine the
+		// receiving side can lag several rounds behind. One extension (k more rounds, then three fresh looks) decides:
+		// a wrong table that is a defect stays wrong, waiting longer can hide a violation but never make one.
+		run.Count("verdicts_extended_once", 1)
 		t.waitRounds(k, 10*nominal+20*time.Second)
 		verdicts = verdicts[:0]
 		for i := 0; i < 3; i++ {
@@ -605,7 +608,7 @@ func runC01Trial(run *ev.Run, sp *c01Spec, seed int64) {
 			ks = append(ks, k)
 		}
 		sort.Strings(ks)
-		run.Violation("route:"+strings.Join(cl, "+"), fmt.Sprintf("trial %d: routing tables wrong at 3 evaluations after %d originated rounds (events %v): %v", sp.Trial, k, ks, verdicts[2][0]),
+		run.Violation("route:"+strings.Join(cl, "+"), fmt.Sprintf("trial %d: routing tables wrong at 3 evaluations after %d originated rounds and again at 3 evaluations after as many more (events %v): %v", sp.Trial, k, ks, verdicts[2][0]),
 			map[string]any{"spec": sp, "diffs": verdicts[2], "topology": t.m.Topo().Adj})
 	default:
 		run.Inconclusive(fmt.Sprintf("C01 trial %d: verdict unstable across evaluations", sp.Trial))
